@@ -14,6 +14,7 @@ import (
 	"math/rand"
 	"os"
 	"runtime"
+	"syscall"
 	"time"
 
 	"verifharness/vhu"
@@ -223,6 +224,39 @@ func runDetScenario(si int, sc scenario, pk int, emit func(map[string]interface{
 		opts.MutateAddNodeProb = saveNode
 		copy(opts.NodeActivatorsProb, want)
 	}
+	// the EXECUTOR value may have had an earlier life as well: in some perturbed processes it has already turned over another
+	// population under another Options object with other values (a program that keeps one executor for several runs)
+	ex := &genetics.SequentialPopulationEpochExecutor{}
+	if pk%5 == 1 || pk%5 == 4 {
+		other := sc.options()
+		other.SurvivalThresh = 0.95 - other.SurvivalThresh/2
+		other.AgeSignificance, other.DropOffAge = other.AgeSignificance+1.5, other.DropOffAge/2+1
+		other.CompatThreshold *= 2.5
+		if other.BabiesStolen == 0 {
+			other.BabiesStolen = other.PopSize / 4
+		} else {
+			other.BabiesStolen = 0
+		}
+		other.MutateAddNodeProb, other.MutateAddLinkProb = 0.5, 0.5
+		rand.Seed(time.Now().UnixNano())
+		rec := &epochRec{in: newInterner(), stats: map[string]int{}}
+		if p, _, _, err := construct(sc, other, rec); err == nil && p != nil {
+			for g := 1; g <= 2; g++ {
+				for i, o := range p.Organisms {
+					o.Fitness = float64(i%5) + rand.Float64()
+				}
+				failed := false
+				_ = vhu.Guard(func() { failed = ex.NextEpoch(neat.NewContext(context.Background(), other), g, p) != nil })
+				if failed {
+					break
+				}
+			}
+		}
+	}
+	if sc.LogLevel != "" {
+		_ = neat.InitLogger(sc.LogLevel)
+		defer func() { _ = neat.InitLogger("error") }()
+	}
 	rand.Seed(sc.Seed)
 	if sc.Via == "execute" {
 		// the way every caller of the library evolves a population: seed the global source, then Experiment.Execute
@@ -254,10 +288,17 @@ func runDetScenario(si int, sc scenario, pk int, emit func(map[string]interface{
 		line[k] = v
 	}
 	emit(line)
-	ex := &genetics.SequentialPopulationEpochExecutor{}
 	frng := rand.New(rand.NewSource(sc.Seed*31 + 5))
 	for gen := 1; gen <= sc.Epochs; gen++ {
 		assignFitness(pop, sc.Fitness, frng, gen)
+		if sc.LogLevel != "" {
+			// wall-clock time: one process lets more than a second pass before some epochs, another a few milliseconds before all
+			if pk%5 == 3 && (gen == 2 || gen == 3) {
+				time.Sleep(1100 * time.Millisecond)
+			} else if pk%5 == 1 {
+				time.Sleep(time.Duration(3+gen*7%20) * time.Millisecond)
+			}
+		}
 		if sc.Reseed {
 			// identical seed before every epoch in every process; perturbed processes evolve something else in between
 			if pk%5 == 2 || pk%5 == 4 {
@@ -302,6 +343,15 @@ func recordDigests(args []string) int {
 	defer f.Close()
 	enc := json.NewEncoder(f)
 	epochs := 0
+	for _, sc := range scs {
+		if sc.LogLevel != "" {
+			// the loggers write to the standard output they captured at package initialisation: point descriptor 1 at /dev/null
+			if dn, err := os.OpenFile(os.DevNull, os.O_WRONLY, 0); err == nil {
+				_ = syscall.Dup3(int(dn.Fd()), 1, 0)
+			}
+			break
+		}
+	}
 	for si, sc := range scs {
 		perturb(*pk, si)
 		if *pk%5 == 4 {
